@@ -148,8 +148,10 @@ func (c *Ctx) cmpDirect(d *Driver, dc directCase, fam string, idx int) (res []st
 			for i := range res {
 				if mres[i] != res[i] {
 					name := "kind"
-					if i > 0 && len(res) >= nFields {
-						name = fieldNames[i-(len(res)-nFields)]
+					if k := i - (len(res) - nFields); i > 0 && len(res) >= nFields && k >= 0 && k < len(fieldNames) {
+						name = fieldNames[k]
+					} else if i > 0 {
+						name = fmt.Sprintf("field %d", i)
 					}
 					what = fmt.Sprintf("%s: model %q, implementation %q", name, mres[i], res[i])
 					break
@@ -214,6 +216,67 @@ func famDirect(c *Ctx, cfg *Cfg, n int, states []int, fam string, each func(d *D
 		res, b, u0, ret, ok := c.cmpDirect(d, dc, fam, i)
 		if ok && each != nil {
 			each(d, dc, res, b, u0, ret)
+		}
+	})
+}
+
+// famNewUrlHist: histories that start from the value of Parser.NewUrl() (an empty URL record, not a parse result): setters,
+// clones, SearchParams operations; model request "HN". Correspondence only - the properties speak about parsed URLs - plus
+// "no operation panics".
+func famNewUrlHist(c *Ctx, cfg *Cfg, n int, fam string) {
+	rng := NewRng(c.Seed ^ 0x9e0)
+	protos := []string{"https", "http:", "file", "ws", "sc", "mailto", "FTP:", "a1+-.", "1x", ""}
+	c.Pool.Run(n, func(d *Driver, i int) {
+		r := rng.Fork(i)
+		cfg.Ensure(d)
+		var ops []Op
+		if r.Chance(3, 4) {
+			ops = append(ops, Op{K: "s", W: 0, A: r.Pick(protos)})
+		}
+		ops = append(ops, r.ops(1+r.Intn(6), "sssspc", true)...)
+		toks := make([]string, len(ops))
+		strs := make([]string, len(ops))
+		for k, o := range ops {
+			toks[k], strs[k] = o.Token(), o.String()
+		}
+		req := "HN " + cfg.ID + " " + strings.Join(toks, " ")
+		cs := Case{Kind: "hist", Cfg: cfg.Desc, Input: "(NewUrl())", Ops: strs, Req: req, Family: fam, Index: i}
+		h := &implHist{}
+		h.u[0] = cfg.Parser.NewUrl()
+		var isteps []Step
+		for _, o := range ops {
+			isteps = append(isteps, h.step(o))
+		}
+		c.Count("hn\x00"+req, len(ops) > 1, fam)
+		for k, s := range isteps {
+			if len(s.Extra) > 0 && s.Extra[0] == "!" {
+				c.Report(Finding{Class: "violation", What: "an operation on a URL made by NewUrl() panicked: " + strs[k], Case: cs})
+				return
+			}
+		}
+		_, msteps := parseHistReply(d.Ask(req))
+		var folded []Step
+		k := 0
+		for _, o := range ops {
+			nn := 1
+			if o.K == "D" {
+				nn = 2
+			}
+			if k+nn <= len(msteps) {
+				folded = append(folded, msteps[k+nn-1])
+			}
+			k += nn
+		}
+		msteps = folded
+		if len(msteps) != len(isteps) {
+			c.Report(Finding{Class: "correspondence", What: fmt.Sprintf("NewUrl history: model has %d steps, implementation %d", len(msteps), len(isteps)), Case: cs})
+			return
+		}
+		for k := range isteps {
+			if diff := diffStep(msteps[k], isteps[k], allButVerrs); diff != "" {
+				c.Report(Finding{Class: "correspondence", What: fmt.Sprintf("NewUrl history step %d (%s): %s", k, strs[k], diff), Case: cs})
+				return
+			}
 		}
 	})
 }
